@@ -396,7 +396,7 @@ def _variant_of(fn, ty, val):
     return fn.facts.variant_by_discr(head, val)
 
 
-def feasible_reach(fn, src, targets, avoid, limit=40000, overrides=None):
+def feasible_reach(fn, src, targets, avoid, limit=40000, overrides=None, rearm=False):
     """Is a block of `targets` reachable from `src` along a path that is feasible under constant propagation of bools / enum variants and
     avoids `avoid`?  `overrides` gives values to assume for locals whose assignment the propagation cannot evaluate."""
     targets, avoid = set(targets), set(avoid)
@@ -413,7 +413,9 @@ def feasible_reach(fn, src, targets, avoid, limit=40000, overrides=None):
         if bb == src:
             armed = True
         if armed and bb in avoid:
-            continue
+            if not rearm:
+                continue
+            armed = False     # the question is asked again at the next visit of src (a loop that passes `avoid` once and skips it later)
         if armed and bb in targets:
             return True
         b = fn.blocks[bb]
